@@ -56,6 +56,12 @@ impl Cli {
     pub fn thorough(&self) -> bool {
         self.tier == "thorough"
     }
+    /// Exploration level: quick = 0, thorough = 1, plus `--boost N` (the check script boosts the
+    /// properties whose engines are cheap, so that their every-change tier already runs the bounds
+    /// that used to be the thorough tier and their thorough tier runs deeper ones).
+    pub fn level(&self) -> usize {
+        self.thorough() as usize + self.opt("--boost").and_then(|s| s.parse::<usize>().ok()).unwrap_or(0)
+    }
     pub fn flag(&self, name: &str) -> bool {
         self.extra.iter().any(|e| e == name)
     }
